@@ -78,6 +78,8 @@ def check_accumulator_allocation(P, R, rule="DTYPE.accumulator"):
                     dt = next((k_.value for k_ in v.keywords if k_.arg == "dtype"), None)
                     dt_means = dt is not None and mp in {n.id for n in ast.walk(dt) if isinstance(n, ast.Name)}
                     int_dtype = dt is not None and src(dt) in ("int", "np.int64", "np.int32", "np.float32", "'float32'", "'int'")
+                    float_dtype = dt is not None and src(dt) in ("float", "np.float64", "numpy.float64", "np.double", "'float64'", "'float'", "'f8'", "np.float_")
+                    like_means = like_means and not float_dtype  # *_like(means, dtype=float): the shape of the centroids, a float dtype
                     R.check(not (like_means or dt_means or int_dtype), rule, key, f"{t.id} = {src(v)[:60]}", "float accumulator independent of the centroids' dtype", f"the accumulator `{t.id}` takes its dtype from the centroids `{mp}` (or a narrow dtype): with integer or float32 centroids every per-block sum is truncated/rounded, and the result depends on the chunking", st.lineno)
 
 
